@@ -161,6 +161,10 @@ pub assume_specification<T, E> [std::result::Result::<T, E>::unwrap_unchecked] (
     requires r is Ok,
     ensures t == r->Ok_0;
 
+// Rust guarantees that a Vec (and a slice) never holds more than isize::MAX octets
+pub broadcast axiom fn axiom_vec_len_isize(v: &Vec<u8>)
+    ensures #[trigger] v@.len() <= isize::MAX;
+
 // ---- R2 wrappers: same-behaviour extension methods; contracts assumed, discharged by Kani -----
 pub uninterp spec fn borrow_view<T: ?Sized>(t: &T) -> Seq<u8>;
 pub broadcast axiom fn axiom_borrow_view_vec(v: &Vec<u8>)
